@@ -19,6 +19,7 @@ type Str struct {
 	c      string
 	b      []*Term // len(b) == length when non-nil; each of type u8
 	opaque bool    // content unknown (result of formatting symbolic values)
+	ne     bool    // opaque content known to be non-empty (the format has literal text)
 }
 
 type Struct []Value
@@ -337,7 +338,8 @@ func (in *Interp) strSlice(s Str, lo, hi int) Str {
 
 func (in *Interp) strConcat(a, b Str) Str {
 	if a.opaque || b.opaque {
-		return Str{c: a.c + b.c, opaque: true}
+		ne := (a.opaque && a.ne) || (b.opaque && b.ne) || (!a.opaque && a.Len() > 0) || (!b.opaque && b.Len() > 0)
+		return Str{c: a.c + b.c, opaque: true, ne: ne}
 	}
 	if a.b == nil && b.b == nil {
 		return Str{c: a.c + b.c}
@@ -349,6 +351,9 @@ func (in *Interp) strConcat(a, b Str) Str {
 }
 
 func (in *Interp) strEq(a, b Str) *Term {
+	if a.opaque && a.ne && !b.opaque && b.Len() == 0 || b.opaque && b.ne && !a.opaque && a.Len() == 0 {
+		return in.tb.False // formatted text with literal characters is not the empty string
+	}
 	if a.opaque || b.opaque {
 		in.inconclusive("comparison on the content of an opaque (formatted) string")
 	}
